@@ -1,24 +1,31 @@
 """C36 - flow files round-trip; reading fails only with FlowReadException.
 
 Decided (structural clauses, nothing executed):
-  R36.1 writer/reader key agreement of every hand-written get_state / set_state / from_state triple (13 implementors found by
-        scanning the package for ``get_state``): dict keys written == keys consumed (and the reader insists on having consumed
-        everything), tuple positions written == positions unpacked == constructor parameter order, Request/Response constructor
-        parameters == RequestData/ResponseData fields, delegating implementors delegate on both sides, SerializableDataclass
-        iterates the same ``__fields()`` on all three sides and skips only the non-essential ``serialize=False`` fields,
-        ``Flow.__init_subclass__`` registers every subclass under the name ``get_state`` writes as ``type``.
-  R36.2 (E5) the escape set of ``FlowReader.stream`` (tnetstring.load -> compat.migrate_flow (all converters) -> Flow.from_state
-        -> every set_state/from_state reachable by class-hierarchy dispatch) on untrusted file content consists of
-        FlowReadException only: every explicit raise and every modelled implicit raiser (see _helpers_H) is converted.
-  R36.3 tnetstring wire format: ``dumps``/``_rdumpq`` and ``loads``/``load``/``pop``/``parse``/``split`` are interpreted from their ASTs
-        (pyint) on representatives of every serialisable type - scalars, byte strings containing the format's own delimiters, text
-        whose UTF-8 length differs from its character count (2-, 3-, 4-byte code points), empty / nested / mixed containers, a
-        flow-shaped state dict - and three obligations are compared with a reference model of the format coded from its
-        specification: what the writer produces is a well-formed tnetstring denoting the value (length prefixes of the value AND of
-        every enclosing container), the reader maps it back to the same value with the same types, and the reader accepts the
-        canonical form; a stream of several dumped values is read back value by value by ``load``.  Merged / reordered branches,
-        other local names or helper functions are analysed, not refused.  In addition, when ``_rdumpq`` is still an if-chain of
-        literal chunks, the (python type -> tag) table it writes equals the (tag -> python type) table of ``parse`` (structural).
+  R36.1 writer/reader key agreement of every hand-written get_state / set_state / from_state triple (implementors found by scanning the
+        package for ``get_state``): dict keys written == keys consumed - the written key set is obtained by abstract interpretation of get_state
+        over "dict with a known key set" (displays incl. ``**``, ``dict(..)``, ``a | b``, ``super().get_state()``, locals, ``d[k] = ..``,
+        ``d.update(..)``, ``setdefault``), the consumed ones from every ``state.pop(k)`` / ``state[k]`` wherever it occurs (walrus, temporaries) -
+        and the subclass removes its own keys before delegating; tuple positions written == positions unpacked == constructor parameter
+        order; Request/Response constructor parameters == RequestData/ResponseData fields; delegating implementors delegate on both sides;
+        SerializableDataclass iterates the same field list on all three sides and skips only the known non-essential ``serialize=False``
+        fields; ``Flow.__init_subclass__`` registers every subclass under the attribute ``get_state`` writes as ``type`` and ``from_state`` looks
+        it up in that registry (local aliases resolved).  For the one-off implementors recognising the idiom is a shape matter (exit 2); only a
+        disagreement between the sides is a violation.
+  R36.2 (E5) the escape set of the whole body of ``FlowReader.stream`` (tnetstring.load -> compat.migrate_flow (all converters) ->
+        Flow.from_state -> every set_state/from_state reachable by class-hierarchy dispatch; the HAR importer summarised as "any Exception")
+        on untrusted file content consists of FlowReadException only: every explicit raise and every modelled implicit raiser (see
+        _helpers_H) is converted.  Handler coverage follows the call graph into helper methods / module functions the per-record work may be
+        moved into, resolves exception tuples through module-level constants (``except _MALFORMED_DATA_ERRORS``, ``A + (B,)``) and
+        ``raise make_error(x)`` through the factory's returns.
+  R36.3 tnetstring wire format: ``dumps`` and ``loads``/``load`` (and whatever private helpers they use - today _rdumpq / pop / parse / split) are
+        interpreted from their ASTs (pyint) on representatives of every serialisable type - scalars, byte strings containing the format's
+        own delimiters, text whose UTF-8 length differs from its character count (2-, 3-, 4-byte code points), empty / nested / mixed
+        containers, a flow-shaped state dict - and three obligations are compared with a reference model of the format coded from its
+        specification: what the writer produces is a well-formed tnetstring denoting the value (length prefixes of the value AND of every
+        enclosing container), the reader maps it back to the same value with the same types, and the reader accepts the canonical form; a
+        stream of several dumped values is read back value by value by ``load``; the (python type -> tag) table observed on the interpreted
+        writer equals the (tag -> python type) table observed on the interpreted parser.  How writer and parser are written (if-chain,
+        match, helper functions, deque vs concatenation, names) is irrelevant.
 NOT decided: value-level equality of a saved and re-loaded flow; exceptions outside the modelled table (MemoryError, OSError of the
 file object, ``__setattr__`` overrides, exceptions thrown into the generator by its consumer).
 """
@@ -46,10 +53,10 @@ REG = {
     "strength": "partial",
     "technique": "exception-escape sets vs. handler coverage over the resolved call graph (E5) + writer/reader key agreement (E6) + "
     "AST interpretation of the tnetstring writer/reader against a reference model of the format",
-    "claim": "every explicit raise and every modelled implicit raiser reachable from FlowReader.stream on untrusted file content leaves "
-    "it as FlowReadException; every hand-written get_state/set_state/from_state triple agrees on its keys / positions; the tnetstring "
-    "writer and parser, interpreted from their ASTs on representatives of every type (incl. nested non-ASCII text), produce well-formed "
-    "output that reads back identically and agree on the type-tag table.",
+    "claim": "every explicit raise and every modelled implicit raiser reachable from FlowReader.stream (helpers followed, exception tuples resolved "
+    "through module constants) on untrusted file content leaves it as FlowReadException; every hand-written get_state/set_state/from_state "
+    "triple agrees on its keys / positions; the tnetstring writer and parser, interpreted from their ASTs on representatives of every type "
+    "(incl. nested non-ASCII text), produce well-formed output that reads back identically and agree on the type-tag table.",
     "note": "Implicit raisers are the modelled table of _helpers_H (KeyError/IndexError/TypeError/AttributeError/ValueError/Unicode*/"
     "AssertionError/OverflowError/RecursionError on untrusted data); dynamic dispatch is over-approximated by class-hierarchy analysis "
     "of Serializable implementors; third-party parsers (cryptography x509, wsproto Opcode) are summarised in the trusted base.",
@@ -62,6 +69,7 @@ FLOW = "mitmproxy/flow.py"
 HTTP = "mitmproxy/http.py"
 SER = "mitmproxy/coretypes/serializable.py"
 MODES = "mitmproxy/proxy/mode_specs.py"
+HAR_IO = "mitmproxy/io/har.py"
 
 
 # ---------------------------------------------------------------------------------------------------
@@ -80,9 +88,16 @@ def _config(ctx) -> Config:
     flow_ctors = _subclass_ctors(model, "Flow")
     mode_ctors = _subclass_ctors(model, "ProxyMode")
 
+    hits = set()
+
     def dynamic(fr, call):
         where = f"{fr.mod.rel}::{fr.fn._qual}"
         text = norm(call.func)
+        if fr.mod.rel == IO and isinstance(call.func, (ast.Name, ast.Attribute)):
+            r = fr.eng.model.resolve_name(fr.mod, call.func)
+            if r is not None and r[0].rel == HAR_IO and getattr(r[1], "name", "") == "request_to_flow":
+                hits.add("har")
+                return ("raises", ("Exception",), "V")
         if where == f"{FLOW}::Flow.from_state" and text == "flow_cls":
             return flow_ctors
         if where == f"{MODES}::ProxyMode.parse" and text == "mode_cls":
@@ -106,7 +121,7 @@ def _config(ctx) -> Config:
         "mitmproxy.version.FLOW_FORMAT_VERSION": ((), None),
         "mitmproxy_rs.local.LocalRedirector.describe_spec": (("ValueError",), None),
     }
-    return Config(
+    cfg = Config(
         externals=externals,
         dispatch=dispatch,
         dynamic=dynamic,
@@ -117,49 +132,50 @@ def _config(ctx) -> Config:
             f"{COMPAT}::_convert_dict_vals": "depth follows the literal values_to_convert table, not the data",
         },
     )
+    cfg.hits = hits
+    return cfg
 
 
 def _r36_2(ctx):
+    """Escape set of the WHOLE body of FlowReader.stream (both file formats; helper methods / module helpers the per-record work was
+    moved into are followed over the call graph, exception tuples are resolved through module constants)."""
     fn = ctx.func(IO, "FlowReader.stream")
-    for q in ("load", "parse", "pop", "split"):
+    for q in ("load", "parse", "pop"):
         ctx.func(TN, q)
     ctx.func(COMPAT, "migrate_flow")
     ctx.func(FLOW, "Flow.from_state")
     ctx.func(FLOW, "Flow.set_state")
-    branch = [s for s in stmts_of(fn) if isinstance(s, ast.If) and s.orelse]
-    ctx.require(len(branch) == 1, "FlowReader.stream: the HAR / tnetstring branch changed shape")
-    har, tnet = branch[0].body, branch[0].orelse
-    ctx.require(any("tnetstring.load" in norm(s) for s in tnet) and any("json.loads" in norm(s) for s in har),
-                "FlowReader.stream: cannot tell the HAR branch from the tnetstring branch")
     ctx.trust("cryptography x509.load_pem_x509_certificate raises ValueError/TypeError on bad input; wsproto Opcode(x) raises ValueError")
+    ctx.trust("io.har.request_to_flow on arbitrary decoded JSON may raise any Exception subclass (summarised, not analysed)")
     ctx.assume("file object reads return bytes (OSError of the underlying file is outside the property)")
     env = {"self.fo": "V"}
-    for label, stmts, strict in (("tnetstring", tnet, True), ("HAR", har, False)):
-        cfg = _config(ctx)
-        cfg.strict = strict
-        mr = MayRaise(ctx, cfg)
-        esc = mr.region(IO, "FlowReader.stream", stmts, env)
-        key = mr.key_of_region(IO, "FlowReader.stream", env)
-        ctx.require(len(esc) >= 1 and mr.sites >= (40 if strict else 3), f"{label}: escape analysis collapsed ({mr.sites} raiser sites)")
-        ctx.paths += mr.sites
-        for f in sorted(mr.functions):
-            ctx.functions.add(f)
-        bad = sorted((e for e in esc if not mr.h.isa(e.exc, "FlowReadException")), key=lambda e: (e.exc, e.rel, e.qual, e.text))
-        types = sorted({e.exc for e in bad})
-        for t in types:
-            first = next(e for e in bad if e.exc == t)
-            ctx.fail("R36.2", (IO, "FlowReader.stream", fn), f"{t} escapes the {label} branch",
-                     f"{t} raised at {first.site()} ({first.why}) is not converted to FlowReadException; call chain: "
-                     + " -> ".join(mr.chain(key, first)), chain=mr.chain(key, first), sites=[e.site() for e in bad if e.exc == t][:8])
-        if not types:
-            ctx.ok("R36.2", f"{label} branch: {mr.sites} raiser sites in {len(mr.functions)} functions, escape set = "
-                   f"{sorted({e.exc for e in esc})}")
-        for k, v in sorted(mr.discharged.items()):
-            ctx.assume(f"discharged: {k}: {v}")
-        if strict:
-            ctx.sample({"rule": "R36.2", "raiser_sites": mr.sites, "functions": len(mr.functions),
-                        "types_seen_before_filtering": sorted({x.exc for s in mr.memo.values() for x in s.escapes})})
-    ctx.expect_instances("R36.2", 2)
+    cfg = _config(ctx)
+    mr = MayRaise(ctx, cfg)
+    esc = mr.region(IO, "FlowReader.stream", stmts_of(fn), env)
+    key = mr.key_of_region(IO, "FlowReader.stream", env)
+    # the analysis must have walked the real reader: tnetstring parser, migration, state restoration and the HAR importer
+    reached = {f"{TN}::load", f"{COMPAT}::migrate_flow", f"{FLOW}::Flow.from_state", f"{FLOW}::Flow.set_state"}
+    ctx.require(reached <= mr.functions, f"FlowReader.stream no longer reaches {sorted(reached - mr.functions)} over the resolved call graph (anchor moved)")
+    ctx.require("har" in cfg.hits, "FlowReader.stream no longer reaches io.har.request_to_flow (anchor moved)")
+    ctx.require(len(esc) >= 1 and mr.sites >= 40, f"escape analysis collapsed ({mr.sites} raiser sites)")
+    ctx.paths += mr.sites
+    for f in sorted(mr.functions):
+        ctx.functions.add(f)
+    bad = sorted((e for e in esc if not mr.h.isa(e.exc, "FlowReadException")), key=lambda e: (e.exc, e.rel, e.qual, e.text))
+    types = sorted({e.exc for e in bad})
+    for t in types:
+        first = next(e for e in bad if e.exc == t)
+        ctx.fail("R36.2", (IO, "FlowReader.stream", fn), f"{t} escapes FlowReader.stream",
+                 f"{t} raised at {first.site()} ({first.why}) is not converted to FlowReadException; call chain: "
+                 + " -> ".join(mr.chain(key, first)), chain=mr.chain(key, first), sites=[e.site() for e in bad if e.exc == t][:8])
+    if not types:
+        ctx.ok("R36.2", f"FlowReader.stream (tnetstring and HAR input): {mr.sites} raiser sites in {len(mr.functions)} functions, escape set = "
+               f"{sorted({e.exc for e in esc})}")
+    for k, v in sorted(mr.discharged.items()):
+        ctx.assume(f"discharged: {k}: {v}")
+    ctx.sample({"rule": "R36.2", "raiser_sites": mr.sites, "functions": len(mr.functions),
+                "types_seen_before_filtering": sorted({x.exc for s in mr.memo.values() for x in s.escapes})})
+    ctx.expect_instances("R36.2", 1)
 
 
 # ---------------------------------------------------------------------------------------------------
@@ -186,40 +202,145 @@ def _is_super_call(e, meth):
             and isinstance(e.func.value.func, ast.Name) and e.func.value.func.id == "super")
 
 
-def _dict_writer(fn):
-    """get_state building a dict: -> (keys, has_super) or None when it has another shape."""
-    rets = [n for n in walk_in_order(fn) if isinstance(n, ast.Return) and n.value is not None]
-    if len(rets) != 1:
-        return None
-    v = rets[0].value
-    extra = set()
-    if isinstance(v, ast.Name):
-        defs = [n for n in walk_in_order(fn) if isinstance(n, ast.Assign) and len(n.targets) == 1 and isinstance(n.targets[0], ast.Name) and n.targets[0].id == v.id]
-        if len(defs) != 1 or not isinstance(defs[0].value, ast.Dict):
-            return None
-        for n in walk_in_order(fn):
-            if isinstance(n, ast.Assign):
-                for t in n.targets:
-                    if isinstance(t, ast.Subscript) and isinstance(t.value, ast.Name) and t.value.id == v.id:
-                        k = _const_str(t.slice)
-                        if k is None:
-                            return None
-                        extra.add(k)
-        v = defs[0].value
-    if not isinstance(v, ast.Dict):
-        return None
-    keys, has_super = set(extra), False
-    for k, val in zip(v.keys, v.values):
-        if k is None:
-            if not _is_super_call(val, "get_state"):
+class _NoShape(Exception):
+    pass
+
+
+def _dict_writer(fn, want_values=False):
+    """get_state building a dict: -> (keys, has_super) or None when it has another shape.
+
+    Abstract interpretation of the (straight-line) body over the domain "dict with a known key set": ``{..}`` displays incl. ``**``,
+    ``dict(..)``, ``a | b``, ``super().get_state()``, locals bound to such values, ``d[k] = ..``, ``d.update(..)`` (mapping and/or keywords),
+    ``d |= ..``, ``d.setdefault(k, ..)``, ``d.copy()``; the returned value decides.  Statements that do not touch a tracked dict (logging,
+    asserts, unrelated temporaries) are transparent; a tracked dict changed under a condition / loop is not modelled (None)."""
+    env: dict = {}
+
+    def val(e):
+        """(keys, has_super, {key: value node}) | None when ``e`` is not a dict of known keys"""
+        if isinstance(e, ast.Dict):
+            keys, sup, vals = set(), False, {}
+            for k, v in zip(e.keys, e.values):
+                if k is None:
+                    r = val(v)
+                    if r is None:
+                        raise _NoShape
+                    keys |= r[0]
+                    sup = sup or r[1]
+                    vals.update(r[2])
+                else:
+                    ks = _const_str(k)
+                    if ks is None:
+                        raise _NoShape
+                    keys.add(ks)
+                    vals[ks] = v
+            return keys, sup, vals
+        if _is_super_call(e, "get_state") and not e.args and not e.keywords:
+            return set(), True, {}
+        if isinstance(e, ast.Name) and e.id in env:
+            k, s_, v = env[e.id]
+            return set(k), s_, dict(v)
+        if isinstance(e, ast.Call) and isinstance(e.func, ast.Name) and e.func.id == "dict" and len(e.args) <= 1:
+            base = (set(), False, {}) if not e.args else val(e.args[0])
+            if base is None:
                 return None
-            has_super = True
-        else:
-            ks = _const_str(k)
-            if ks is None:
+            return merge(base, e.keywords)
+        if isinstance(e, ast.Call) and isinstance(e.func, ast.Attribute) and e.func.attr == "copy" and not e.args and not e.keywords:
+            return val(e.func.value)
+        if isinstance(e, ast.BinOp) and isinstance(e.op, ast.BitOr):
+            a, b = val(e.left), val(e.right)
+            if a is None or b is None:
                 return None
-            keys.add(ks)
-    return keys, has_super
+            return a[0] | b[0], a[1] or b[1], {**a[2], **b[2]}
+        return None
+
+    def merge(base, keywords, mapping=None):
+        keys, sup, vals = set(base[0]), base[1], dict(base[2])
+        for extra in [mapping] if mapping is not None else []:
+            r = val(extra)
+            if r is None:
+                raise _NoShape
+            keys |= r[0]
+            sup = sup or r[1]
+            vals.update(r[2])
+        for kw in keywords:
+            if kw.arg is None:
+                r = val(kw.value)
+                if r is None:
+                    raise _NoShape
+                keys |= r[0]
+                sup = sup or r[1]
+                vals.update(r[2])
+            else:
+                keys.add(kw.arg)
+                vals[kw.arg] = kw.value
+        return keys, sup, vals
+
+    def touches(node):
+        """names of tracked dicts that ``node`` may change (stores, item stores, mutating method calls)"""
+        out = set()
+        for n in ast.walk(node):
+            if isinstance(n, ast.Name) and n.id in env and isinstance(n.ctx, (ast.Store, ast.Del)):
+                out.add(n.id)
+            if isinstance(n, ast.Subscript) and isinstance(n.value, ast.Name) and n.value.id in env and isinstance(n.ctx, (ast.Store, ast.Del)):
+                out.add(n.value.id)
+            if isinstance(n, ast.Call) and isinstance(n.func, ast.Attribute) and isinstance(n.func.value, ast.Name) and n.func.value.id in env \
+                    and n.func.attr in ("update", "setdefault", "pop", "popitem", "clear", "__setitem__", "__delitem__"):
+                out.add(n.func.value.id)
+        return out
+
+    result = []
+    try:
+        for st in fn.body:
+            if isinstance(st, ast.Return):
+                if st.value is None:
+                    return None
+                result.append(val(st.value))
+                break
+            if isinstance(st, (ast.Assign, ast.AnnAssign)) and st.value is not None:
+                targets = st.targets if isinstance(st, ast.Assign) else [st.target]
+                if len(targets) == 1 and isinstance(targets[0], ast.Name):
+                    r = val(st.value)
+                    if r is not None:
+                        env[targets[0].id] = r
+                    else:
+                        env.pop(targets[0].id, None)
+                    continue
+                if len(targets) == 1 and isinstance(targets[0], ast.Subscript) and isinstance(targets[0].value, ast.Name) and targets[0].value.id in env:
+                    k = _const_str(targets[0].slice)
+                    if k is None:
+                        return None
+                    keys, sup, vals = env[targets[0].value.id]
+                    keys.add(k)
+                    vals[k] = st.value
+                    continue
+            if isinstance(st, ast.AugAssign) and isinstance(st.op, ast.BitOr) and isinstance(st.target, ast.Name) and st.target.id in env:
+                r = val(st.value)
+                if r is None:
+                    return None
+                a = env[st.target.id]
+                env[st.target.id] = (a[0] | r[0], a[1] or r[1], {**a[2], **r[2]})
+                continue
+            if isinstance(st, ast.Expr) and isinstance(st.value, ast.Call) and isinstance(st.value.func, ast.Attribute) \
+                    and isinstance(st.value.func.value, ast.Name) and st.value.func.value.id in env:
+                c, name = st.value, st.value.func.value.id
+                if c.func.attr == "update" and len(c.args) <= 1:
+                    env[name] = merge(env[name], c.keywords, c.args[0] if c.args else None)
+                    continue
+                if c.func.attr == "setdefault" and len(c.args) == 2 and _const_str(c.args[0]) is not None:
+                    env[name][0].add(_const_str(c.args[0]))
+                    env[name][2].setdefault(_const_str(c.args[0]), c.args[1])
+                    continue
+                return None
+            if touches(st):
+                return None  # a tracked dict changed conditionally / in a loop / by an unmodelled operation
+            if any(isinstance(n, ast.Return) for n in ast.walk(st)):
+                return None  # several exits
+    except _NoShape:
+        return None
+    if len(result) != 1 or result[0] is None:
+        return None
+    keys, sup, vals = result[0]
+    return (keys, sup, vals) if want_values else (keys, sup)
 
 
 def _dict_reader(fn):
@@ -326,18 +447,71 @@ def _r36_1(ctx):
             seen.append((m.rel, q))
             _one_implementor(ctx, m, c)
     ctx.require(len(seen) >= 15, f"R36.1: only {len(seen)} get_state implementors found: {seen}")
-    # Flow subclass registry <-> the `type` key
+    _flow_registry(ctx)
+    ctx.expect_instances("R36.1", 17)
+
+
+def _deref(fn, e, depth=0):
+    """``e`` with local names that are bound exactly once in ``fn`` (plain assignment) replaced by their value (alias resolution)."""
+    while isinstance(e, ast.Name) and depth < 4:
+        defs = [n for n in walk_in_order(fn) if isinstance(n, (ast.Assign, ast.AnnAssign, ast.NamedExpr)) and getattr(n, "value", None) is not None
+                and any(isinstance(t, ast.Name) and t.id == e.id for t in (n.targets if isinstance(n, ast.Assign) else [n.target]))]
+        stores = [n for n in walk_in_order(fn) if isinstance(n, ast.Name) and n.id == e.id and isinstance(n.ctx, ast.Store)]
+        if len(defs) != 1 or len(stores) != 1:
+            break
+        e, depth = defs[0].value, depth + 1
+    return e
+
+
+def _flow_registry(ctx):
+    """Flow subclass registry <-> the ``type`` key of the state: a subclass is registered under ``cls.<a>``, get_state writes ``self.<a>`` as
+    ``type`` and from_state looks ``state['type']`` up in the same registry.  Extraction problems are shape problems (exit 2), not violations."""
     isub = ctx.func(FLOW, "Flow.__init_subclass__")
     gs, fs = ctx.func(FLOW, "Flow.get_state"), ctx.func(FLOW, "Flow.from_state")
-    reg = [norm(t.value) for n in walk_in_order(isub) if isinstance(n, ast.Assign) for t in n.targets
-           if isinstance(t, ast.Subscript) and norm(t.slice) == "cls.type"]
-    wr = [norm(v) for n in walk_in_order(gs) if isinstance(n, ast.Dict) for k, v in zip(n.keys, n.values) if _const_str(k) == "type"]
-    rd = [norm(n.value) for n in walk_in_order(fs) if isinstance(n, ast.Subscript) and norm(n.slice) in ("state['type']", 'state["type"]')]
-    ok = len(reg) == 1 and wr == ["self.type"] and len(rd) >= 1 and rd[0] == reg[0]
-    ctx.check(ok, "R36.1", (FLOW, "Flow.__init_subclass__", isub), "Flow.__types[cls.type] / 'type': self.type / Flow.__types[state['type']]",
-              f"subclass registry {reg}, written type {wr} and lookup {rd} do not agree: a saved flow cannot find its class",
-              desc="Flow subclass registry keyed by the written `type`")
-    ctx.expect_instances("R36.1", 17)
+    cls_p = isub.args.args[0].arg
+    regs = []
+    for n in walk_in_order(isub):
+        if isinstance(n, ast.Assign) and isinstance(n.value, ast.Name) and n.value.id == cls_p:
+            regs += [(t.value, t.slice) for t in n.targets if isinstance(t, ast.Subscript)]
+        if isinstance(n, ast.Call) and isinstance(n.func, ast.Attribute) and n.func.attr == "setdefault" and len(n.args) == 2 \
+                and isinstance(n.args[1], ast.Name) and n.args[1].id == cls_p:
+            regs.append((n.func.value, n.args[0]))
+    ctx.require(len(regs) == 1, f"Flow.__init_subclass__: expected one registration `<registry>[<key>] = {cls_p}`, found {len(regs)}")
+    cont, key = _deref(isub, regs[0][0]), _deref(isub, regs[0][1])
+    ctx.require(isinstance(key, ast.Attribute) and isinstance(key.value, ast.Name) and key.value.id == cls_p and attr_chain(cont),
+                f"Flow.__init_subclass__: registration key/registry of unmodelled shape: {norm(regs[0][0])}[{norm(regs[0][1])}]")
+    dw = _dict_writer(gs, want_values=True)
+    ctx.require(dw is not None and "type" in dw[2], "Flow.get_state: the value written as 'type' could not be extracted")
+    wv = _deref(gs, dw[2]["type"])
+    self_p = gs.args.args[0].arg
+    if isinstance(wv, ast.Attribute) and isinstance(wv.value, ast.Call) and norm(wv.value) == f"type({self_p})":
+        written = wv.attr
+    else:
+        ctx.require(isinstance(wv, ast.Attribute) and isinstance(wv.value, ast.Name) and wv.value.id == self_p,
+                    f"Flow.get_state: 'type' is written from an expression of unmodelled shape: {norm(wv)}")
+        written = wv.attr
+    st_p = fs.args.args[1].arg
+
+    def is_type_key(e):
+        e = _deref(fs, e)
+        if isinstance(e, ast.Subscript) and isinstance(e.value, ast.Name) and e.value.id == st_p and _const_str(e.slice) == "type":
+            return True
+        return isinstance(e, ast.Call) and isinstance(e.func, ast.Attribute) and e.func.attr == "get" and isinstance(e.func.value, ast.Name) \
+            and e.func.value.id == st_p and e.args and _const_str(e.args[0]) == "type"
+
+    looks = []
+    for n in walk_in_order(fs):
+        if isinstance(n, ast.Subscript) and isinstance(n.ctx, ast.Load) and is_type_key(n.slice):
+            looks.append(_deref(fs, n.value))
+        if isinstance(n, ast.Call) and isinstance(n.func, ast.Attribute) and n.func.attr == "get" and n.args and is_type_key(n.args[0]):
+            looks.append(_deref(fs, n.func.value))
+    looks = [x for x in looks if attr_chain(x) and attr_chain(x) != st_p]
+    ctx.require(looks, "Flow.from_state: no registry lookup by state['type'] found (shape not modelled)")
+    reg_attr, look_attrs = attr_chain(cont).split(".")[-1], sorted({attr_chain(x).split(".")[-1] for x in looks})
+    ok = key.attr == written and look_attrs == [reg_attr]
+    ctx.check(ok, "R36.1", (FLOW, "Flow.__init_subclass__", isub), "Flow subclass registry: registered key / written 'type' / lookup",
+              f"subclasses are registered in {reg_attr} under {cls_p}.{key.attr}, get_state writes {self_p}.{written} as 'type' and from_state looks it up in "
+              f"{look_attrs}: a saved flow cannot find its class", desc="Flow subclass registry keyed by the written `type`")
 
 
 def _one_implementor(ctx, m, c):
@@ -373,24 +547,51 @@ def _one_implementor(ctx, m, c):
     if tw is not None:
         tr = _tuple_reader(ss)
         init = model.method(m.rel, c._qual, "__init__")
-        ctx.require(tr is not None and init is not None, f"{name}: unmodelled tuple reader / constructor")
-        star = [n for n in walk_in_order(fs) if isinstance(n, ast.Call) and norm(n) == "cls(*state)"]
-        ctx.require(len(star) == 1, f"{name}.from_state is no longer cls(*state)")
+        ctx.require(tr is not None and None not in tr and init is not None, f"{name}: unmodelled tuple reader / constructor")
+        cls_p = fs.args.args[0].arg if fs.args.args else "cls"
+        star = [n for n in walk_in_order(fs) if isinstance(n, ast.Call) and isinstance(n.func, ast.Name) and n.func.id in (cls_p, name)
+                and len(n.args) == 1 and isinstance(n.args[0], ast.Starred) and not n.keywords]
+        ctx.require(len(star) == 1, f"{name}.from_state is no longer {cls_p}(*state)")
         order = _ctor_attr_order(init[1])[: len(tw)]
+        ctx.require(None not in order, f"{name}.__init__: cannot tell which attribute receives each of the first {len(tw)} parameters")
         ctx.check(tw == tr and tw == order, "R36.1", where(gs), f"{name} state tuple",
                   f"positions written {tw}, unpacked by set_state {tr}, taken by the constructor {order}",
                   desc=f"{name}: {len(tw)} tuple positions written == unpacked == constructor order")
         ctx.cells += len(tw)
         return
+    # the remaining implementors: recognising the idiom is a matter of shape (exit 2 when it is gone), only a DISAGREEMENT between the three
+    # sides is a violation
+    self_p = gs.args.args[0].arg
+    st_p = ss.args.args[1].arg
+
+    def returned(fn):
+        rets = [n for n in walk_in_order(fn) if isinstance(n, ast.Return) and n.value is not None]
+        ctx.require(len(rets) == 1, f"{name}.{fn.name}: expected exactly one return")
+        return _deref(fn, rets[0].value)
+
+    def calls_with_state(fn, param):
+        """calls in ``fn`` that receive the state parameter (or a local alias of it) as their only / first / ** / * argument"""
+        out = []
+        for n in walk_in_order(fn):
+            if isinstance(n, ast.Call):
+                args = [x.value if isinstance(x, ast.Starred) else x for x in n.args] + [k.value for k in n.keywords if k.arg is None]
+                if any(isinstance(_deref(fn, x), ast.Name) and _deref(fn, x).id == param for x in args):
+                    out.append(n)
+        return out
+
     if name == "SerializableDataclass":
-        texts = {f.name: [norm(n.slice) if isinstance(n, ast.Subscript) else norm(n.args[0]) for n in walk_in_order(f)
-                          if (isinstance(n, ast.Subscript) and isinstance(n.value, ast.Name) and n.value.id == "state")
-                          or (isinstance(n, ast.Call) and norm(n.func) == "state.pop")] for f in (gs, fs, ss)}
-        loops = {f.name: [norm(n.iter) for n in walk_in_order(f) if isinstance(n, ast.For)] for f in (gs, fs, ss)}
-        ok = all(set(v) == {"field.name"} for v in texts.values()) and loops["get_state"] == ["self.__fields()"] \
-            and loops["from_state"] == ["cls.__fields()"] and loops["set_state"] == ["self.__fields()"]
-        ctx.check(ok, "R36.1", where(gs), "SerializableDataclass field iteration", f"the three state methods do not iterate the same field list: {texts} {loops}",
-                  desc="SerializableDataclass: get/from/set iterate __fields() and key by field.name")
+        sides = {}
+        for f in (gs, fs, ss):
+            iters = [n.iter for n in walk_in_order(f) if isinstance(n, ast.For)]
+            keys = [norm(n.slice) if isinstance(n, ast.Subscript) else norm(n.args[0]) for n in walk_in_order(f)
+                    if (isinstance(n, ast.Subscript) and isinstance(n.value, ast.Name) and n.value.id == "state")
+                    or (isinstance(n, ast.Call) and norm(n.func) == "state.pop" and n.args)]
+            ctx.require(len(iters) == 1 and isinstance(iters[0], ast.Call) and isinstance(iters[0].func, ast.Attribute) and not iters[0].args and keys,
+                        f"SerializableDataclass.{f.name}: the loop over the field list / the keyed state access changed shape")
+            sides[f.name] = (iters[0].func.attr, sorted(set(keys)))
+        ok = len(set(map(str, sides.values()))) == 1
+        ctx.check(ok, "R36.1", where(gs), "SerializableDataclass field iteration", f"the three state methods do not iterate the same field list / key: {sides}",
+                  desc=f"SerializableDataclass: get/from/set iterate {sides['get_state'][0]}() and key by {sides['get_state'][1]}")
         # non-serialised fields must be known to be non-essential
         for mm in modules_mentioning(model, '"serialize"'):
             for n in walk_in_order(mm.tree):
@@ -405,46 +606,84 @@ def _one_implementor(ctx, m, c):
              and "get_state" in norm(n.value)}
         r1 = {x.value for n in walk_in_order(ss) if isinstance(n, ast.Compare) and isinstance(n.ops[0], ast.In) for x in getattr(n.comparators[0], "elts", [])
               if isinstance(x, ast.Constant)}
+        r1 |= {n.comparators[0].value for n in walk_in_order(ss) if isinstance(n, ast.Compare) and isinstance(n.ops[0], ast.Eq) and isinstance(n.comparators[0], ast.Constant)
+               and isinstance(n.comparators[0].value, str)}
         r2 = {_const_str(t.slice) for n in walk_in_order(fs) if isinstance(n, ast.Assign) for t in n.targets if isinstance(t, ast.Subscript)
               and "from_state" in norm(n.value)}
-        allattrs = "vars(self)" in _src(gs) and "state.items()" in _src(ss) and "cls(**state)" in _src(fs)
-        ctx.check(allattrs and w == r1 == r2 and w, "R36.1", where(gs), "MessageData nested-state keys",
+        allattrs = any(isinstance(n, ast.Call) and norm(n.func) == "vars" for n in walk_in_order(gs)) \
+            and any(isinstance(n, ast.Call) and isinstance(n.func, ast.Attribute) and n.func.attr == "items" for n in walk_in_order(ss)) \
+            and any(n.keywords and n.keywords[0].arg is None for n in calls_with_state(fs, fs.args.args[1].arg))
+        ctx.require(allattrs, "MessageData: state is no longer `all attributes` (vars(self) / state.items() / cls(**state)) - shape not modelled")
+        ctx.require(w and r1 and r2 and None not in w | r2, f"MessageData: nested-state keys could not be extracted on one side ({sorted(map(str, w))} / {sorted(r1)} / {sorted(map(str, r2))})")
+        ctx.check(w == r1 == r2, "R36.1", where(gs), "MessageData nested-state keys",
                   f"keys serialised through Headers.get_state {sorted(w)} vs restored by set_state {sorted(r1)} / from_state {sorted(r2)}",
                   desc=f"MessageData: all attributes, nested {sorted(w)} on the three sides")
         return
     if name == "Message":
-        deleg = norm(gs.body[-1]) == "return self.data.get_state()" and "self.data.set_state(state)" in _src(ss) and "cls(**state)" in _src(fs)
+        ret = returned(gs)
+        deleg_w = isinstance(ret, ast.Call) and isinstance(ret.func, ast.Attribute) and ret.func.attr == "get_state" and _self_attr(_deref(gs, ret.func.value))
+        deleg_r = [n for n in calls_with_state(ss, st_p) if isinstance(n.func, ast.Attribute) and n.func.attr == "set_state" and _self_attr(_deref(ss, n.func.value))]
+        built = [n for n in calls_with_state(fs, fs.args.args[1].arg) if n.keywords and n.keywords[0].arg is None]
+        ctx.require(deleg_w and len(deleg_r) == 1 and len(built) == 1, "Message: get_state/set_state/from_state no longer delegate to the data object / build cls(**state) - shape not modelled")
         bad = []
+        if deleg_w != _self_attr(_deref(ss, deleg_r[0].func.value)):
+            bad.append(f"get_state serialises self.{deleg_w} but set_state restores self.{_self_attr(_deref(ss, deleg_r[0].func.value))}")
         for sub, data in (("Request", "RequestData"), ("Response", "ResponseData")):
             init = ctx.func(HTTP, f"{sub}.__init__")
             params = [a.arg for a in init.args.args][1:]
             fields = _dataclass_fields(model, HTTP, data)
-            built = [kw.arg for n in walk_in_order(init) if isinstance(n, ast.Call) and norm(n.func) == data for kw in n.keywords]
+            built_kw = [kw.arg for n in walk_in_order(init) if isinstance(n, ast.Call) and norm(n.func) == data for kw in n.keywords]
+            ctx.require(built_kw, f"{sub}.__init__ no longer builds {data}(...) with keywords - shape not modelled")
             ctx.cells += len(fields)
-            if set(params) != set(fields) or set(built) != set(fields):
-                bad.append(f"{sub}: constructor parameters {sorted(set(params) ^ set(fields))} / {data}(...) keywords {sorted(set(built) ^ set(fields))} differ from the {data} fields")
-        ctx.check(deleg and not bad, "R36.1", where(gs), "Message state = data state; Request/Response(**state)", "; ".join(bad) or "Message no longer delegates to self.data",
+            if set(params) != set(fields) or set(built_kw) != set(fields):
+                bad.append(f"{sub}: constructor parameters {sorted(set(params) ^ set(fields))} / {data}(...) keywords {sorted(set(built_kw) ^ set(fields))} differ from the {data} fields")
+        ctx.check(not bad, "R36.1", where(gs), "Message state = data state; Request/Response(**state)", "; ".join(bad),
                   desc="Message: delegates to data; Request/Response constructor parameters == RequestData/ResponseData fields")
         return
     if name == "Cert":
-        enc = [n.attr for n in walk_in_order(ctx.func(m.rel, "Cert.to_pem")) if isinstance(n, ast.Attribute) and norm(n.value).endswith("Encoding")]
-        loaders = [norm(n.func) for f in (ss, ctx.func(m.rel, "Cert.from_pem")) for n in walk_in_order(f) if isinstance(n, ast.Call) and "load_" in norm(n.func)]
-        ok = norm(gs.body[-1]) == "return self.to_pem()" and "cls.from_pem(state)" in _src(fs) and len(enc) == 1 and len(loaders) == 2 \
-            and all(f"load_{enc[0].lower()}_x509_certificate" in x for x in loaders)
+        ret = returned(gs)
+        writer = gs
+        if isinstance(ret, ast.Call) and isinstance(ret.func, ast.Attribute) and isinstance(ret.func.value, ast.Name) and ret.func.value.id == self_p and not ret.args:
+            r = model.method(m.rel, c._qual, ret.func.attr)
+            ctx.require(r is not None, f"Cert.get_state returns self.{ret.func.attr}() which is not a method")
+            writer = r[1]
+        enc = [n.attr for n in walk_in_order(writer) if isinstance(n, ast.Attribute) and norm(n.value).endswith("Encoding")]
+        readers = [ss]
+        for n in calls_with_state(fs, fs.args.args[1].arg):
+            if isinstance(n.func, ast.Attribute) and isinstance(n.func.value, ast.Name) and n.func.value.id in (fs.args.args[0].arg, name):
+                r = model.method(m.rel, c._qual, n.func.attr)
+                if r is not None:
+                    readers.append(r[1])
+        loaders = [norm(n.func) for f in readers for n in walk_in_order(f) if isinstance(n, ast.Call) and "load_" in norm(n.func) and "x509_certificate" in norm(n.func)]
+        ctx.require(len(enc) == 1 and len(readers) == 2 and len(loaders) == 2, f"Cert: encoding {enc} / loaders {loaders} could not be extracted (shape not modelled)")
+        ok = all(f"load_{enc[0].lower()}_x509_certificate" in x for x in loaders)
         ctx.check(ok, "R36.1", where(gs), "Cert state encoding", f"written with Encoding {enc}, read with {loaders}", desc=f"Cert: {enc} on both sides")
         return
     if name == "MultiDict":
         init = model.method(m.rel, c._qual, "__init__")[1]
-        ok = norm(gs.body[-1]) == "return self.fields" and any(_self_attr(t) == "fields" for n in walk_in_order(ss) if isinstance(n, ast.Assign) for t in n.targets) \
-            and "cls(state)" in _src(fs) and _ctor_attr_order(init)[:1] == ["fields"]
-        ctx.check(ok, "R36.1", where(gs), "MultiDict state = fields", "get_state/set_state/constructor no longer agree on `fields`", desc="MultiDict: fields on the three sides")
+        a_w = _self_attr(returned(gs))
+        a_s = {_self_attr(t) for n in walk_in_order(ss) if isinstance(n, ast.Assign) and st_p in {x.id for x in ast.walk(n.value) if isinstance(x, ast.Name)}
+               for t in n.targets if _self_attr(t)}
+        built = [n for n in calls_with_state(fs, fs.args.args[1].arg) if isinstance(n.func, ast.Name) and n.func.id in (fs.args.args[0].arg, name)]
+        a_c = _ctor_attr_order(init)[:1]
+        ctx.require(a_w and a_s and len(built) == 1 and a_c and a_c[0], "MultiDict: get_state/set_state/from_state/constructor changed shape")
+        ctx.check(a_w in a_s and a_c == [a_w], "R36.1", where(gs), "MultiDict state = fields",
+                  f"get_state writes self.{a_w}, set_state restores {sorted(a_s)}, the constructor puts the state into self.{a_c[0]}", desc=f"MultiDict: {a_w} on the three sides")
         return
     if name == "ProxyMode":
-        parse = ctx.func(m.rel, "ProxyMode.parse")
+        a_w = _self_attr(returned(gs))
+        parses = [n for n in calls_with_state(fs, fs.args.args[1].arg) if isinstance(n.func, ast.Attribute)]
+        ctx.require(a_w and len(parses) == 1, "ProxyMode: get_state/from_state changed shape")
+        r = model.method(m.rel, c._qual, parses[0].func.attr)
+        ctx.require(r is not None, f"ProxyMode.from_state delegates to {norm(parses[0].func)}, which is not a ProxyMode method")
+        parse = r[1]
         spec_param = [a.arg for a in parse.args.args][1]
-        built = [norm(kw.value) for n in walk_in_order(parse) if isinstance(n, ast.Call) for kw in n.keywords if kw.arg == "full_spec"]
-        ok = norm(gs.body[-1]) == "return self.full_spec" and "ProxyMode.parse(state)" in _src(fs) and built == [spec_param] and "self.full_spec" in _src(ss)
-        ctx.check(ok, "R36.1", where(gs), "ProxyMode state = full_spec", "get_state/parse no longer agree on full_spec", desc="ProxyMode: full_spec written, parsed back into full_spec")
+        built = [_deref(parse, kw.value) for n in walk_in_order(parse) if isinstance(n, ast.Call) for kw in n.keywords if kw.arg == a_w]
+        ctx.require(built and any(isinstance(n, ast.Attribute) and _self_attr(n) == a_w for n in walk_in_order(ss)),
+                    f"ProxyMode: {parse.name} does not build {a_w}=... / set_state does not look at self.{a_w} (shape not modelled)")
+        ctx.check(all(isinstance(b, ast.Name) and b.id == spec_param for b in built), "R36.1", where(gs), "ProxyMode state = full_spec",
+                  f"get_state writes self.{a_w} but {parse.name}() fills {a_w} with {[norm(b) for b in built]} instead of the spec it was given",
+                  desc=f"ProxyMode: {a_w} written, parsed back into {a_w}")
         return
     raise AnalysisError(f"R36.1: get_state implementor of unmodelled shape: {m.rel}::{c._qual}")
 
@@ -453,67 +692,34 @@ def _one_implementor(ctx, m, c):
 # R36.3 tnetstring tag tables
 
 
-def _r36_3_tags(ctx):
-    dump, parse = ctx.func(TN, "_rdumpq"), ctx.func(TN, "parse")
-    # writer: walk the if/elif chain; the first write(...) of a branch pushes the LAST chunk, whose last byte is the tag
-    ctx.require(any(isinstance(n, ast.Assign) and norm(n) == "write = q.appendleft" for n in dump.body), "_rdumpq no longer pushes chunks last-first")
-    chain = [s for s in dump.body if isinstance(s, ast.If)]
-    ctx.require(len(chain) == 1, "_rdumpq: if-chain changed shape")
-    writer = {}
-    node = chain[0]
-    while isinstance(node, ast.If):
-        t = norm(node.test)
-        if t == "value is None":
-            typ = "None"
-        elif t in ("value is True", "value is False"):
-            typ = "bool"
-        elif isinstance(node.test, ast.Call) and norm(node.test.func) == "isinstance":
-            a = node.test.args[1]
-            typ = "|".join(sorted(x.id for x in (a.elts if isinstance(a, ast.Tuple) else [a])))
-        else:
-            raise AnalysisError(f"_rdumpq: unmodelled branch test {t}")
-        first = next((n for n in walk_in_order(node.body[0] if not isinstance(node.body[0], ast.Assign) else node) if isinstance(n, ast.Call) and norm(n.func) == "write"), None)
-        writes = [n for st in node.body for n in walk_in_order(st) if isinstance(n, ast.Call) and norm(n.func) == "write"]
-        ctx.require(writes, f"_rdumpq: branch {t} writes nothing")
-        arg = writes[0].args[0]
-        if isinstance(arg, ast.BinOp):
-            arg = arg.left
-        ctx.require(isinstance(arg, ast.Constant) and isinstance(arg.value, bytes), f"_rdumpq: first chunk of branch {t} is not a bytes literal")
-        tag = chr(arg.value[-1])
-        ctx.require(writer.get(typ, tag) == tag, f"_rdumpq: type {typ} written with two tags")
-        writer[typ] = tag
-        node = node.orelse[0] if len(node.orelse) == 1 else None
-    reader = {}
-    for s in parse.body:
-        if not isinstance(s, ast.If):
+_TAG_WRITER_REPS = [("None", None), ("bool", True), ("bool", False), ("int", 7), ("float", 1.5), ("bytes", b"x"), ("str", "x"),
+                    ("list|tuple", [7]), ("list|tuple", (7,)), ("dict", {b"a": 7})]
+_TAG_READER_REPS = {",": b"1:x,", ";": b"1:x;", "#": b"1:7#", "^": b"3:1.5^", "!": b"4:true!", "~": b"0:~", "]": b"4:1:7#]", "}": b"8:1:a,1:7#}"}
+_TYPE_GROUP = {type(None): "None", bool: "bool", int: "int", float: "float", bytes: "bytes", str: "str", list: "list|tuple", tuple: "list|tuple", dict: "dict"}
+
+
+def _r36_3_tags(ctx, run, anchor):
+    """(python type -> tag) as WRITTEN == (tag -> python type) as PARSED, both tables obtained by interpreting the writer / the parser on one
+    representative per type / per tag (no assumption about how either function is written)."""
+    writer, reader, odd = {}, {}, []
+    for typ, v in _TAG_WRITER_REPS:
+        w = run("dumps", v)
+        if w[0] != "ok" or not isinstance(w[1], bytes) or not w[1]:
+            odd.append(f"dumps({v!r}) -> {w[1]!r}")
             continue
-        t = s.test
-        ctx.require(isinstance(t, ast.Compare) and norm(t.left) == "data_type" and isinstance(t.comparators[0], ast.Call) and norm(t.comparators[0].func) == "ord",
-                    f"parse: unmodelled branch test {norm(t)}")
-        tag = chr(t.comparators[0].args[0].value[0])
-        body = " ".join(norm(x) for x in s.body)
-        if "tobytes()" in body:
-            typ = "bytes"
-        elif "str(data" in body:
-            typ = "str"
-        elif "int(data)" in body:
-            typ = "int"
-        elif "float(data)" in body:
-            typ = "float"
-        elif "return True" in body and "return False" in body:
-            typ = "bool"
-        elif "return None" in body:
-            typ = "None"
-        elif "lst = []" in body:
-            typ = "list|tuple"
-        elif "d = {}" in body:
-            typ = "dict"
-        else:
-            raise AnalysisError(f"parse: cannot tell the type produced for tag {tag!r}")
-        reader[typ] = tag
+        tag = chr(w[1][-1])
+        if writer.setdefault(typ, tag) != tag:
+            odd.append(f"type {typ} written with two tags {writer[typ]!r} / {tag!r}")
+    for tag, wire in _TAG_READER_REPS.items():
+        r = run("loads", wire)
+        if r[0] != "ok" or type(r[1]) not in _TYPE_GROUP:
+            odd.append(f"loads({wire!r}) -> {r[1]!r}")
+            continue
+        reader[_TYPE_GROUP[type(r[1])]] = tag
     ctx.cells += len(writer) + len(reader)
-    ctx.check(writer == reader and len(writer) == 8, "R36.3", (TN, "_rdumpq", dump), "tnetstring type-tag table",
-              f"written {sorted(writer.items())} != parsed {sorted(reader.items())}", desc=f"8 tags agree: {sorted(writer.items())}")
+    ctx.check(not odd and writer == reader and len(writer) == 8, "R36.3", anchor, "tnetstring type-tag table",
+              f"written {sorted(writer.items())} != parsed {sorted(reader.items())}" + (f"; {'; '.join(odd[:3])}" if odd else ""),
+              desc=f"8 tags agree: {sorted(writer.items())}")
 
 
 # ---- reference model of the wire format (coded from the tnetstring specification + mitmproxy's `;` text extension), used only to cross-read
@@ -620,16 +826,20 @@ def _r36_3(ctx):
     representatives of every serialisable type, including text whose UTF-8 length differs from its character count nested in containers."""
     import collections
     import io
+    import struct
 
     from ..pyint import Interp
+    from ..pyint import NullLog
     from ..pyint import Raised
 
-    dump = ctx.func(TN, "_rdumpq")
-    for q in ("dumps", "loads", "load", "pop", "parse", "split"):
+    # public entry points only: the private helpers behind them (today _rdumpq / pop / parse / split) are found by the interpreter
+    dump = ctx.func(TN, "dumps")
+    for q in ("loads", "load"):
         ctx.func(TN, q)
+    anchor = (TN, "dumps", dump)
 
     def run(fn, *args):
-        it = Interp(ctx.model, trusted_modules={"collections": collections}, max_depth=60)
+        it = Interp(ctx.model, trusted_modules={"collections": collections, "io": io, "struct": struct, "logging": NullLog()}, max_depth=60)
         it.overrides[(TN, "memoryview")] = memoryview
         ctx.cells += 1
         try:
@@ -661,7 +871,7 @@ def _r36_3(ctx):
             r = run("loads", _ref_dumps(v)) if _ref_dumps(v) != wire else r
             if r[0] != "ok" or not _same(v, r[1]):
                 wit = wit or f"loads({show(_ref_dumps(v))}) -> {show(r[1])}, expected {show(v)}"
-        ctx.check(wit is None, "R36.3", (TN, "_rdumpq", dump), f"tnetstring round trip: {cls}",
+        ctx.check(wit is None, "R36.3", anchor, f"tnetstring round trip: {cls}",
                   f"a value is not written as a well-formed tnetstring that reads back as itself: {wit} - a saved flow (and every flow after it in the file) cannot be loaded",
                   desc=f"tnetstring {cls}: {len(values)} representatives: written form is well-formed, reads back identically (interpreted writer x interpreted reader x reference)")
     # file level: FlowReader calls load(fo) repeatedly on one stream
@@ -680,17 +890,14 @@ def _r36_3(ctx):
         wit = "load() leaves unread bytes behind the last value"
     ctx.check(wit is None, "R36.3", (TN, "load", ctx.func(TN, "load")), "tnetstring stream of values: load() x N",
               f"{wit} - flows are not read back in the order / number they were saved", desc=f"stream of {len(seq)} dumped values is read back value by value by load()")
-    try:
-        _r36_3_tags(ctx)
-    except AnalysisError as e:
-        ctx.note(f"R36.3 structural tag table not extracted ({e}); the interpreted round trip above is the decision")
-    ctx.expect_instances("R36.3", 4)
+    _r36_3_tags(ctx, run, anchor)
+    ctx.expect_instances("R36.3", 5)
 
 
 def check(ctx):
     ctx.rule("R36.1", "keys/positions written by get_state == consumed by set_state/from_state for every hand-written implementor")
     ctx.rule("R36.2", "every exception type that can escape FlowReader.stream on untrusted content is FlowReadException (escape set vs handlers)")
-    ctx.rule("R36.3", "tnetstring: (type -> tag) written by _rdumpq == (tag -> type) parsed by parse")
+    ctx.rule("R36.3", "tnetstring: the interpreted writer produces well-formed output that the interpreted reader maps back to the same value; (type -> tag) written == (tag -> type) parsed")
     _r36_1(ctx)
     _r36_2(ctx)
     _r36_3(ctx)
